@@ -14,3 +14,18 @@ func VerifServe(s *Server, ss grpc.ServerStream) error {
 func VerifRouters(n *RawNode) int {
 	return len(n.channel.responseRouters)
 }
+
+// VerifSetLastErr sets the last error recorded on the node's channel.
+func VerifSetLastErr(n *RawNode, err error) {
+	n.channel.setLastErr(err)
+}
+
+// VerifNewMessage creates an empty message for decoding (1 = request, 2 = response).
+func VerifNewMessage(kind int) *Message {
+	return newMessage(gorumsMsgType(kind))
+}
+
+// VerifMsgID returns the next message id the manager would hand out minus one (ids handed out so far).
+func VerifMsgIDs(m *RawManager) uint64 {
+	return m.nextMsgID
+}
